@@ -111,7 +111,7 @@ func runE2E(in *bufio.Scanner, w *bufio.Writer) {
 			processor = nil
 			stale = nil
 			headerInfo = nil
-			frameLogIntervalFirstMin, frameLogInterval = 15, 60*5
+			vResetLogVars()
 			curConf = conf
 			client, done = vStartConn(conf)
 			active = true
